@@ -90,7 +90,7 @@ def gen_pure(ctx):
         exp, flag = expect_single(i, full, maxv, is_error_code=code)
         lines.append(("single %s e:%d:%s:%s %d" % (id_spec(i), code, msg.encode().hex() or "-", L.segs_join([L.seg(b'"'), L.seg(b"d", k), L.seg(b'"')]), maxv), exp, flag, tag))
 
-    top = ctx.scale(4096, 4096)
+    top = ctx.scale(4096, 8192)
     n = 0
     for limit in range(1, top + 1):
         for d in (-2, -1, 0, 1, 2):
@@ -99,7 +99,7 @@ def gen_pure(ctx):
             n += 1
             add_single(i, kind, limit + d, limit, "sweep")
     # every id x every delta for small limits and a few large ones
-    for limit in list(range(30, ctx.scale(130, 400))) + [1000, 4095, 4096, 65536]:
+    for limit in list(range(30, ctx.scale(130, 3000))) + [1000, 4095, 4096, 65536]:
         for i in ID_POOL:
             for d in (-2, -1, 0, 1, 2):
                 add_single(i, rng.choice(KINDS), limit + d, limit, "ids")
@@ -130,7 +130,7 @@ def gen_pure(ctx):
             exp = L.error_bytes(i, code, msg, data)
             lines.append(("error %s %d %s %s" % (id_spec(i), code, msg.encode().hex(), data.hex() if data else "-"), exp, "err:%d" % code, "fixed-error"))
     # batches: limit straddling the array at every entry position
-    for _ in range(ctx.scale(700, 8000)):
+    for _ in range(ctx.scale(700, 40000)):
         k = rng.randint(1, 6)
         ents = []
         for _e in range(k):
@@ -236,7 +236,7 @@ def gen_e2e(ctx):
     rng = ctx.rng
     cases = []
     rq = 1_000_000
-    limits = ctx.scale([60, 100, 151, 500, 4096], [40, 60, 61, 100, 128, 151, 500, 1000, 4096, 20000])
+    limits = ctx.scale([60, 100, 151, 500, 4096], [40, 60, 61, 100, 128, 151, 500, 1000, 4096, 20000] + [rng.randint(34, 3000) for _ in range(40)])
     e2e_ids = [7, 1234567, 2 ** 64 - 1, "a", 'q"\n', "\u00e9x", "long-" * 6]
 
     def M(req, kind, exp, mline=None):
@@ -300,7 +300,7 @@ def gen_e2e(ctx):
 def bmsgs_all(ctx, rng):
     out = []
     for k in range(1, ctx.scale(5, 7)):
-        for _rep in range(ctx.scale(2, 6)):
+        for _rep in range(ctx.scale(2, 20)):
             ents = []
             for _ in range(k):
                 i = rng.choice([1, 22, "b", 'q"'])
